@@ -523,6 +523,39 @@ Fixpoint mismatches_from (i : nat) (cases : list (call * R)) : list nat :=
   | (k, o) :: r => if case_ok k o then mismatches_from (S i) r else i :: mismatches_from (S i) r
   end.
 
+(* ---------- observation functions used by the statements of the theorems ---------- *)
+(* SI dimension signature of a value: of its class for a named quantity, stored for an SI value *)
+Definition sig_of (v : pyval) : option (list Z) :=
+  match v with
+  | VNamed c _ _ => option_map cls_sig (get_class T c)
+  | VSI sg _ => Some sg
+  | VNum _ => Some sig0
+  | VStr => None
+  end.
+
+(* float(v): the SI value *)
+Definition si_of (v : pyval) : option num :=
+  match v with
+  | VNamed _ a _ | VSI _ a | VNum a => Some a
+  | VStr => None
+  end.
+
+(* a quantity value whose class is one of the module's classes *)
+Definition wf_val (v : pyval) : bool :=
+  match v with
+  | VNamed c _ _ => match get_class T c with Some _ => true | None => false end
+  | VSI _ _ => true
+  | _ => false
+  end.
+
+(* "of the same type": the same quantity class, or two SI values with one signature *)
+Definition same_type (x y : pyval) : bool :=
+  match x, y with
+  | VNamed c _ _, VNamed d _ _ => Nat.eqb c d
+  | VSI s _, VSI t _ => sig_eqb s t
+  | _, _ => false
+  end.
+
 End Model.
 
 Arguments VNamed {N} cls si unit.
